@@ -6,4 +6,4 @@ rm -rf $d; rsync -a --exclude .git /repo/ $d/ && patch -s -p1 -d $d < /verif/see
 for p in "$@"; do
   VERIF_REPO=$d /verif/check $p > /var/tmp/seed_try_$sid.$p.log 2>&1 || rc=1; grep -E "^VIOLATION|^KNOWN-FINDING|\] tier|BROKEN" /var/tmp/seed_try_$sid.$p.log | cut -c1-300; rm -f /var/tmp/seed_try_$sid.$p.log
 done
-rm -rf $d; exit ${rc:-0}
+rm -rf $d /verif/build/alt/$(printf %s "$d" | sha1sum | cut -c1-10); exit ${rc:-0}
